@@ -177,7 +177,7 @@ HLS = [None, hl_pre, hl_plain, hl_empty]
 LANGP = ["language-", "", "<&\" x"]
 COMBOS = list(itertools.product((False, True), (False, True), range(3), range(4)))
 OPT_PRESETS = [C.cfg("commonmark"), C.cfg("js-default", {"typographer": True}), C.cfg("zero", enable=["fence", "newline", "image", "emphasis"])]
-FENCE_DOCS = ["```py\nx<y\n```\n", "``` py x=1 &amp; \\*\n&\n```\n", "~~~\n\n~~~\n", "```&#112;y\na\n", "   ```\tsh\n   b\n   ```\n",
+FENCE_DOCS = ["![first\nsecond](u)\n", "[![a\nb](u)](v) c\nd\n", "```py\nx<y\n```\n", "``` py x=1 &amp; \\*\n&\n```\n", "~~~\n\n~~~\n", "```&#112;y\na\n", "   ```\tsh\n   b\n   ```\n",
               "a\nb  \nc\\\nd\n", "![a\nb](u 't')\n", "- a\nb\n\n---\n\n1. c\n", "> ```x\n> y\n", "<div>\n```z\nw\n```\n</div>\n",
               "```<pre\nq\n```\n"]
 _opt_cache = {}
@@ -186,12 +186,21 @@ _opt_cache = {}
 def opt_mds(pi):
     if pi not in _opt_cache:
         out = []
-        for xh, br, lp, hi in COMBOS:
-            md = C.build(OPT_PRESETS[pi], fresh=True)
-            md.options["xhtmlOut"] = xh
-            md.options["breaks"] = br
-            md.options["langPrefix"] = LANGP[lp]
-            md.options["highlight"] = HLS[hi]
+        for n, (xh, br, lp, hi) in enumerate(COMBOS):
+            base = OPT_PRESETS[pi]
+            o = {"xhtmlOut": xh, "breaks": br, "langPrefix": LANGP[lp], "highlight": HLS[hi]}
+            if n % 2 == 0:
+                # constructor route (options_update) ...
+                from markdown_it import MarkdownIt
+
+                md = MarkdownIt(base["preset"], {**(base.get("opts") or {}), **o})
+                if base.get("enable"):
+                    md.enable(base["enable"])
+            else:
+                # ... and item assignment after construction
+                md = C.build(base, fresh=True)
+                for k, v in o.items():
+                    md.options[k] = v
             out.append(md)
         _opt_cache[pi] = out
     return _opt_cache[pi]
